@@ -333,6 +333,36 @@ func ops() []operation {
 		}
 		return false
 	})
+	// replacing the document's own child nodes (SetNodes on the document, as SetNodes on a record)
+	add("doc.SetNodes(without first individual)", "edit", func(d *gedcom.Document) bool {
+		for i, n := range d.Nodes() {
+			if _, ok := n.(*gedcom.IndividualNode); ok {
+				kept := append(gedcom.Nodes{}, d.Nodes()[:i]...)
+				d.SetNodes(append(kept, d.Nodes()[i+1:]...))
+				return true
+			}
+		}
+		return false
+	})
+	add("doc.SetNodes(without first family)", "edit", func(d *gedcom.Document) bool {
+		for i, n := range d.Nodes() {
+			if _, ok := n.(*gedcom.FamilyNode); ok {
+				kept := append(gedcom.Nodes{}, d.Nodes()[:i]...)
+				d.SetNodes(append(kept, d.Nodes()[i+1:]...))
+				return true
+			}
+		}
+		return false
+	})
+	add("doc.SetNodes(+individual I7)", "edit", func(d *gedcom.Document) bool {
+		if root(d, "I7") != nil {
+			return false
+		}
+		src := gedcom.NewDocument()
+		who := gedcom.DeepCopy(src.AddIndividual("I7", gedcom.NewNameNode("Set /Seven/")), d)
+		d.SetNodes(append(append(gedcom.Nodes{}, d.Nodes()...), who))
+		return true
+	})
 	add("doc.AddNode(NOTE)", "edit", func(d *gedcom.Document) bool {
 		d.AddNode(gedcom.NewNode(gedcom.TagNote, "root note", "N1"))
 		return true
